@@ -1,16 +1,23 @@
 /-
-  C10/C11 — fixed Lean types of the tables generated for the NOTIFY path (import-free).
+  C10/C11 — the float carrier of the NOTIFY models (import-free).  Floats are not modelled: they travel as
+  exact ratios and what Python's `float(str)` / `repr` / comparisons give is an *oracle* (`FloatOracle`),
+  declared per case by the harness for the strings it sends and left abstract in the theorems — the same
+  treatment as in C08 (`C08.FloatOps`).
 -/
 import Upnp.Model.C09Base
+import Upnp.Model.C08Types
 namespace Upnp.C10
 open Upnp.C09
 
-/-- shape of the `"in"` coercer of a UPnP data type in `const.STATE_VARIABLE_TYPE_MAPPING` -/
-inductive InKind
-  | int                       -- int
-  | str                       -- str
-  | lowerIn (l : List Str)    -- lambda s: s.lower() in [...]
-  | other                     -- float / parse_date_time / anything else (not modelled)
+/-- a float as an exact ratio -/
+inductive Fl
+  | fin (neg : Bool) (num den : Nat)
+  | inf (neg : Bool)
+  | nan
 deriving DecidableEq, Repr
+
+/-- Python's float operations on the strings / values in play -/
+class FloatOracle where
+  ops : Upnp.C08.FloatOps Fl
 
 end Upnp.C10
